@@ -18,7 +18,7 @@ META = {
         "quick": "histories of <=4 composition calls (add_subcircuit x2 incl. the same child twice, add_blackbox, fill_blackbox in both orders, strip_blackboxes with and without ignored pins) over 2 parents x children {half_adder, full_adder, mux(2), adder(2), constants child, child with a flop blackbox, 6 random DAGs} x 3 seeded connection maps; every step validated; ALL valuations of all nodes",
         "thorough": "40 random children, 6 connection maps, 8 hash seeds",
     },
-    "outside": ["child outputs connected to anything but an undriven buffer of the parent", "strip_io=False", "circuits outside the families"],
+    "outside": ["child outputs connected to anything but an undriven buffer of the parent", "connection maps together with strip_io=False", "circuits outside the families"],
     "assumptions": ["sem.py relational semantics (bb_input = buffer, bb_output/undriven = free)", "harness-side reference composition on specs (ref_* functions, ~40 lines)", "z3 sound"],
 }
 
@@ -83,9 +83,12 @@ def all_cases(ctx):
 
 
 # ------------------------------------------------------------------ reference composition on specs
-def ref_add_sub(P, S, name, conn):
+def ref_add_sub(P, S, name, conn, strip_io=True):
     sn = Net.from_spec(S)
-    nodes = [list(n) for n in P["nodes"]] + [[f"{name}_{n}", "buf" if t == "input" else t, False] for n, t, _ in S["nodes"]]
+    if strip_io:
+        nodes = [list(n) for n in P["nodes"]] + [[f"{name}_{n}", "buf" if t == "input" else t, False] for n, t, _ in S["nodes"]]
+    else:
+        nodes = [list(n) for n in P["nodes"]] + [[f"{name}_{n}", t, o] for n, t, o in S["nodes"]]
     edges = [list(e) for e in P["edges"]] + [[f"{name}_{u}", f"{name}_{v}"] for u, v in S["edges"]]
     for k, net in conn.items():
         if k in sn.inputs():
@@ -255,6 +258,11 @@ def run(ctx):
             hist.append(["add_blackbox", bb, "bx", conn])
             if not step("add_blackbox", lambda: c.add_blackbox(cg.BlackBox(bb[0], bb[1], bb[2]), "bx", dict(conn)), ref_add_bb(cur, bb, "bx", conn), "add_blackbox"):
                 continue
+            # a second instance whose name has the first one's name as a prefix stays open while `bx` is filled
+            conn2 = conn_map(rng, cur, c2, taken)
+            hist.append(["add_blackbox", bb, "bx2", conn2])
+            if not step("add_blackbox-2", lambda: c.add_blackbox(cg.BlackBox(bb[0], bb[1], bb[2]), "bx2", dict(conn2)), ref_add_bb(cur, bb, "bx2", conn2), "add_blackbox"):
+                continue
             order = rng.random() < 0.5
             if order:
                 # another subcircuit between add_blackbox and fill (order of calls varies)
@@ -272,6 +280,14 @@ def run(ctx):
                     same_relation(ctx, "strip_blackboxes", Net.of(r), Net.from_spec(ref_strip_bb(cur, ign)), det, "strip_blackboxes")
             hist.append(["fill_blackbox", "bx", c2["name"]])
             if not step("fill_blackbox", lambda: c.fill_blackbox("bx", build(c2)), ref_fill(cur, "bx", c2), "fill_blackbox"):
+                continue
+            hist.append(["fill_blackbox", "bx2", c2["name"]])
+            if not step("fill_blackbox-2", lambda: c.fill_blackbox("bx2", build(c2)), ref_fill(cur, "bx2", c2), "fill_blackbox"):
+                continue
+        # strip_io=False: the child keeps its inputs/outputs; sub-blackboxes are still carried over under prefixed names
+        if not (Net.from_spec(c1).inputs() & Net.from_spec(c1).outputs()):
+            hist.append(["add_subcircuit", c1["name"], "u9", {}, "strip_io=False"])
+            if not step("add_subcircuit-keep-io", lambda: c.add_subcircuit(build(c1), "u9", None, strip_io=False), ref_add_sub(cur, c1, "u9", {}, strip_io=False), "add_subcircuit"):
                 continue
         # fully connected composition results are lint-clean except for sockets we left open: check with undriven=False
         ctx.lint_clean(c, "composition", undriven=False)
